@@ -106,6 +106,8 @@ pub struct PartInfo {
     pub part_no: Option<u32>,
     /// the part has a relationship part with at least one relationship
     pub has_rels: bool,
+    /// N of every xl/tables/tableN.xml the sheet's relationship part points to
+    pub table_parts: Vec<u32>,
 }
 
 fn zip_read(z: &mut zip::ZipArchive<std::io::Cursor<&[u8]>>, name: &str) -> Option<Vec<u8>> {
@@ -161,8 +163,14 @@ pub fn sheet_parts(bytes: &[u8]) -> Vec<PartInfo> {
         let dir = part[..part.len() - file.len()].to_string();
         let part_no = file.strip_prefix("sheet").and_then(|r| r.strip_suffix(".xml")).and_then(|d| d.parse::<u32>().ok());
         let rel_name = format!("{}_rels/{}.rels", dir, file);
-        let has_rels = zip_read(&mut z, &rel_name).map(|x| !elements(&x, b"Relationship").is_empty()).unwrap_or(false);
-        out.push(PartInfo { name, part, part_no, has_rels });
+        let rel_elems = zip_read(&mut z, &rel_name).map(|x| elements(&x, b"Relationship")).unwrap_or_default();
+        let has_rels = !rel_elems.is_empty();
+        let table_parts = rel_elems
+            .iter()
+            .filter_map(|e| xattr(e, b"Target"))
+            .filter_map(|t| t.rsplit('/').next().and_then(|f| f.strip_prefix("table")).and_then(|r| r.strip_suffix(".xml")).and_then(|d| d.parse::<u32>().ok()))
+            .collect();
+        out.push(PartInfo { name, part, part_no, has_rels, table_parts });
     }
     out
 }
@@ -173,7 +181,25 @@ pub struct Init {
     pub parts: Vec<PartInfo>,
     pub tags: Vec<String>,
     pub nsheets: usize,
+    /// number of tables per sheet (eager load)
+    pub tables: Vec<usize>,
+    /// cells + row entries + column entries of the eager load (deterministic size measure)
+    pub weight: usize,
+    /// validator problems (class:part family) of the ORIGINAL file: a byte-for-byte copy inherits them
+    pub orig_problems: OnceLock<BTreeSet<String>>,
 }
+impl Init {
+    fn new(name: String, bytes: Vec<u8>, parts: Vec<PartInfo>, tags: Vec<String>, eager: &Spreadsheet) -> Init {
+        let sheets = eager.get_sheet_collection_no_check();
+        let tables = sheets.iter().map(|w| w.get_tables().len()).collect();
+        let weight = sheets.iter().map(|w| w.get_collection_to_hashmap().len() + w.get_row_dimensions().len() + w.get_column_dimensions().len()).sum();
+        Init { name, nsheets: sheets.len(), bytes: Arc::new(bytes), parts, tags, tables, weight, orig_problems: OnceLock::new() }
+    }
+    fn orig_problems(&self) -> &BTreeSet<String> {
+        self.orig_problems.get_or_init(|| with_py(|py| py.validate(&self.bytes)).into_iter().map(|(c, p, _)| format!("{}:{}", c, part_family(&p))).collect())
+    }
+}
+const HEAVY: usize = 30_000;
 
 fn gen_inits() -> Vec<Init> {
     let mut v = vec![];
@@ -196,60 +222,75 @@ fn gen_inits() -> Vec<Init> {
                 tags.push(format!("file-has:{}", f));
             }
         }
-        v.push(Init { name: format!("gen:{}", GEN[k].0), bytes: Arc::new(bytes), parts, tags, nsheets: n });
+        let eager = load_bytes(&bytes, true).unwrap_or_else(|e| {
+            eprintln!("MACHINERY: C11 cannot load generated workbook {}: {}", GEN[k].0, e);
+            std::process::exit(2);
+        });
+        v.push(Init::new(format!("gen:{}", GEN[k].0), bytes, parts, tags, &eager));
     }
     v
 }
 
 /// Multi-sheet corpus files that both readers accept, smallest first.
-fn corpus_inits(max: usize, max_bytes: u64) -> Vec<Init> {
-    let mut files: Vec<(u64, String)> = crate::c02::corpus_files().into_iter().map(|p| (std::fs::metadata(&p).map(|m| m.len()).unwrap_or(0), p)).collect();
-    files.sort();
-    let mut v = vec![];
-    for (len, p) in files {
-        if v.len() >= max || len > max_bytes {
-            continue;
+fn corpus_all() -> &'static Vec<Arc<Init>> {
+    static ALL: OnceLock<Vec<Arc<Init>>> = OnceLock::new();
+    ALL.get_or_init(|| {
+        let mut files: Vec<(u64, String)> = crate::c02::corpus_files().into_iter().map(|p| (std::fs::metadata(&p).map(|m| m.len()).unwrap_or(0), p)).collect();
+        files.sort();
+        let mut v = vec![];
+        for (_, p) in files {
+            let bytes = match std::fs::read(&p) {
+                Ok(b) => b,
+                Err(_) => continue,
+            };
+            let parts = sheet_parts(&bytes);
+            if parts.len() < 2 {
+                continue;
+            }
+            // a corpus file the library cannot read at all is C03's business
+            let lazy = match load_bytes(&bytes, false) {
+                Ok(b) => b,
+                Err(_) => continue,
+            };
+            let eager = match load_bytes(&bytes, true) {
+                Ok(b) => b,
+                Err(_) => continue,
+            };
+            let n = lazy.get_sheet_count();
+            if n != parts.len() {
+                continue;
+            }
+            let file = p.rsplit('/').next().unwrap_or("").to_string();
+            let mut tags = vec!["corpus".to_string(), format!("corpus:{}", file), format!("sheets:{}", n.min(9))];
+            if parts.iter().enumerate().any(|(i, q)| q.part_no != Some(i as u32 + 1)) {
+                tags.push("orig-part-numbering-irregular".into());
+            }
+            v.push(Arc::new(Init::new(format!("corpus:{}", file), bytes, parts, tags, &eager)));
         }
-        let bytes = match std::fs::read(&p) {
-            Ok(b) => b,
-            Err(_) => continue,
-        };
-        let parts = sheet_parts(&bytes);
-        if parts.len() < 2 {
-            continue;
-        }
-        // a corpus file the library cannot read at all is C03's business
-        let lazy = match load_bytes(&bytes, false) {
-            Ok(b) => b,
-            Err(_) => continue,
-        };
-        if load_bytes(&bytes, true).is_err() {
-            continue;
-        }
-        let n = lazy.get_sheet_count();
-        if n != parts.len() {
-            continue;
-        }
-        let file = p.rsplit('/').next().unwrap_or("").to_string();
-        let mut tags = vec!["corpus".to_string(), format!("corpus:{}", file), format!("sheets:{}", n.min(9))];
-        if parts.iter().enumerate().any(|(i, q)| q.part_no != Some(i as u32 + 1)) {
-            tags.push("orig-part-numbering-irregular".into());
-        }
-        v.push(Init { name: format!("corpus:{}", file), bytes: Arc::new(bytes), parts, tags, nsheets: n });
-    }
-    v
+        v
+    })
 }
 
-fn inits_for(id: &str) -> &'static Vec<Init> {
-    static GENS: OnceLock<Vec<Init>> = OnceLock::new();
-    static CORPUS_Q: OnceLock<Vec<Init>> = OnceLock::new();
-    static CORPUS_T: OnceLock<Vec<Init>> = OnceLock::new();
-    static CORPUS_BIG: OnceLock<Vec<Init>> = OnceLock::new();
+fn inits_for(id: &str) -> &'static Vec<Arc<Init>> {
+    static GENS: OnceLock<Vec<Arc<Init>>> = OnceLock::new();
+    static SMALL: OnceLock<Vec<Arc<Init>>> = OnceLock::new();
+    static NORMAL: OnceLock<Vec<Arc<Init>>> = OnceLock::new();
+    static HEAVYS: OnceLock<Vec<Arc<Init>>> = OnceLock::new();
+    static WIDE: OnceLock<Vec<Arc<Init>>> = OnceLock::new();
     match id {
-        "gen" => GENS.get_or_init(gen_inits),
-        "corpus-small" => CORPUS_Q.get_or_init(|| corpus_inits(6, 100_000)),
-        "corpus" => CORPUS_T.get_or_init(|| corpus_inits(usize::MAX, 300_000)),
-        _ => CORPUS_BIG.get_or_init(|| corpus_inits(usize::MAX, u64::MAX).into_iter().filter(|i| i.bytes.len() > 300_000).collect()),
+        "gen" => GENS.get_or_init(|| gen_inits().into_iter().map(Arc::new).collect()),
+        // quick: the 3 smallest light multi-sheet files + the 3 smallest further ones in which a sheet has relationships
+        "corpus-small" => SMALL.get_or_init(|| {
+            let light: Vec<&Arc<Init>> = corpus_all().iter().filter(|i| i.weight <= HEAVY && i.nsheets <= 4).collect();
+            let mut v: Vec<Arc<Init>> = light.iter().take(3).map(|i| (*i).clone()).collect();
+            for i in light.iter().skip(3).filter(|i| i.parts.iter().filter(|p| p.has_rels).count() >= 1).take(3) {
+                v.push((*i).clone());
+            }
+            v
+        }),
+        "corpus" => NORMAL.get_or_init(|| corpus_all().iter().filter(|i| i.weight <= HEAVY).cloned().collect()),
+        "corpus-big" => HEAVYS.get_or_init(|| corpus_all().iter().filter(|i| i.weight > HEAVY && i.nsheets <= 4).cloned().collect()),
+        _ => WIDE.get_or_init(|| corpus_all().iter().filter(|i| i.weight > HEAVY && i.nsheets > 4).cloned().collect()),
     }
 }
 
@@ -450,6 +491,10 @@ pub struct St {
     key: u128,
     /// per current sheet: materialised in the lazy book (observed)
     mat: Vec<bool>,
+    /// per current sheet: cached hash of the projection of the lazy book's sheet (None while unloaded) and of the twin's
+    /// (the projections themselves are not kept: they are rebuilt when two hashes differ and a diff has to be shown)
+    lp: Vec<Option<u128>>,
+    tp: Vec<Option<u128>>,
 }
 
 fn diff_symptom(path: &str, left: &str, right: &str) -> String {
@@ -483,16 +528,28 @@ fn part_family(p: &str) -> String {
 pub struct C11Machine<'a> {
     init: &'a Init,
     depth: usize,
+    /// what is compared: FULL, or (heavy files) everything but styles
+    opts: Opts,
     counters: std::cell::RefCell<BTreeMap<String, u64>>,
+    /// accumulated microseconds per phase (development aid; never part of a verdict)
+    timers: std::cell::RefCell<BTreeMap<String, u64>>,
     obs: std::cell::RefCell<Vec<u64>>,
 }
 
 impl<'a> C11Machine<'a> {
     fn new(init: &'a Init, depth: usize) -> Self {
-        C11Machine { init, depth, counters: Default::default(), obs: Default::default() }
+        let opts = if init.weight > HEAVY { Opts { styles: false, annotations: true, dims: true } } else { Opts::FULL };
+        C11Machine { init, depth, opts, counters: Default::default(), timers: Default::default(), obs: Default::default() }
     }
     fn count(&self, k: &str) {
         *self.counters.borrow_mut().entry(k.to_string()).or_insert(0) += 1;
+    }
+    /// hash of the projection of one sheet (the projection itself is dropped)
+    fn proj(&self, ws: &Worksheet) -> u128 {
+        e2::key_of(&sheet_p(ws, self.opts).to_string())
+    }
+    fn time(&self, k: &str, t0: std::time::Instant) {
+        *self.timers.borrow_mut().entry(k.to_string()).or_insert(0) += t0.elapsed().as_micros() as u64;
     }
 
     fn fresh(&self) -> Result<(Spreadsheet, Spreadsheet), String> {
@@ -502,12 +559,18 @@ impl<'a> C11Machine<'a> {
     }
 
     fn init_state(&self) -> Result<St, String> {
+        self.init_state_checked().map(|x| x.0)
+    }
+
+    /// Initial state plus the violations of its own observation (reported once per file, by the case of the first operation).
+    fn init_state_checked(&self) -> Result<(St, Vec<Violation>), String> {
         let (lazy, twin) = self.fresh()?;
         let n = lazy.get_sheet_count();
         let model = (0..n).map(|i| MSheet { orig: Some(i), expect_mat: false, renamed_while_unloaded: false, edited: false }).collect();
-        let mut s = St { lazy, twin, hist: vec![], model, removed: vec![], wb_insert: false, saves: 0, save_sig: 0, key: 0, mat: vec![] };
-        self.observe(&mut s, &mut vec![], &[]);
-        Ok(s)
+        let mut s = St { lazy, twin, hist: vec![], model, removed: vec![], wb_insert: false, saves: 0, save_sig: 0, key: 0, mat: vec![], lp: vec![], tp: vec![] };
+        let mut vs = vec![];
+        self.observe(&mut s, &mut vs, true, &[]);
+        Ok((s, vs))
     }
 
     /// Tags describing the shape of the history that led to `s` (all derived from state that is part of the key).
@@ -552,6 +615,19 @@ impl<'a> C11Machine<'a> {
         if !renumbered && !unloaded.is_empty() {
             t.insert("unloaded-sheets-keep-their-number".into());
         }
+        // the writer numbers the tables of materialised sheets 1,2,.. in sheet order; unloaded sheets keep their table parts
+        let raw_tables: BTreeSet<u32> = unloaded.iter().filter_map(|&i| s.model[i].orig.and_then(|o| self.init.parts.get(o))).flat_map(|p| p.table_parts.iter().copied()).collect();
+        let mut next = 0u32;
+        for (i, ws) in s.twin.get_sheet_collection_no_check().iter().enumerate() {
+            if s.mat.get(i).copied().unwrap_or(true) {
+                for _ in 0..ws.get_tables().len() {
+                    next += 1;
+                    if raw_tables.contains(&next) {
+                        t.insert("materialised-table-number-taken-by-unloaded-sheet".into());
+                    }
+                }
+            }
+        }
         if !s.removed.is_empty() {
             t.insert("removed-sheet".into());
         }
@@ -588,31 +664,62 @@ impl<'a> C11Machine<'a> {
     }
 
     /// Observe the state: materialisation flags, clause sheet-list, clause materialised-equals-eager,
-    /// clause materialised-on-access; computes the state key.
-    fn observe(&self, s: &mut St, out: &mut Vec<Violation>, touched: &[usize]) {
+    /// clause materialised-on-access; computes the state key.  Projections are cached per sheet: with
+    /// `full == false` only the sheets in `touched` (and sheets whose materialisation flag changed) are
+    /// projected again; every save-expanded state is re-observed with `full == true` on fresh objects and
+    /// must give the same key, which checks the caches.
+    fn observe(&self, s: &mut St, out: &mut Vec<Violation>, full: bool, touched: &[usize]) {
         let ln = sheet_names(&s.lazy);
         let tn = sheet_names(&s.twin);
+        let t0 = std::time::Instant::now();
         s.mat = (0..ln.len()).map(|i| is_materialised(&s.lazy, i)).collect();
+        self.time("is_materialised", t0);
         if ln != tn {
             let sym = if ln.len() != tn.len() { "sheet-count" } else { "sheet-name-or-order" };
             out.push(self.viol(s, "sheet-list", sym, &[], format!("lazy sheets {:?}, eager twin sheets {:?}", ln, tn)));
         }
+        let n = ln.len();
+        let full = full || s.lp.len() != n || s.tp.len() != n;
+        if full {
+            s.lp = vec![None; n];
+            s.tp = vec![None; n];
+        }
         let mut keyparts: Vec<Value> = vec![];
-        let lsheets = s.lazy.get_sheet_collection_no_check();
-        let tsheets = s.twin.get_sheet_collection_no_check();
-        for i in 0..ln.len() {
-            let tp = tsheets.get(i).map(|w| sheet_p(w, Opts::FULL)).unwrap_or(Value::Null);
-            if s.mat[i] {
-                let lp = sheet_p(&lsheets[i], Opts::FULL);
-                if let Some((path, l, r)) = first_diff(&lp, &tp) {
-                    let sym = diff_symptom(&path, &l, &r);
-                    out.push(self.viol(s, "materialised-equals-eager", &sym, &[], format!("sheet {} ({:?}) of the lazy book differs from the eager twin at {}: lazy {} / eager {}", i, ln[i], path, l, r)));
-                    keyparts.push(lp);
-                }
-            } else if s.model.get(i).map(|m| m.expect_mat).unwrap_or(false) || touched.contains(&i) {
-                out.push(self.viol(s, "materialised-on-access", "still-unloaded", &[], format!("sheet {} ({:?}) is still unloaded after a materialising accessor", i, ln[i])));
+        for i in 0..n {
+            let redo = full || touched.contains(&i);
+            // read_sheet on the (fully loaded) twin cannot change it: its cached projection stays
+            let redo_twin = full || (touched.contains(&i) && !matches!(s.hist.last(), Some(Op::Read(_))));
+            if redo_twin || s.tp[i].is_none() {
+                s.tp[i] = s.twin.get_sheet_collection_no_check().get(i).map(|w| self.proj(w));
             }
-            keyparts.push(json!({"mat": s.mat[i], "twin": tp}));
+            if !s.mat[i] {
+                s.lp[i] = None;
+            } else if redo || s.lp[i].is_none() {
+                s.lp[i] = Some(self.proj(&s.lazy.get_sheet_collection_no_check()[i]));
+            }
+            let th = s.tp[i].unwrap_or(0);
+            if s.mat[i] {
+                let lh = s.lp[i].unwrap_or(0);
+                if lh != th {
+                    let lv = sheet_p(&s.lazy.get_sheet_collection_no_check()[i], self.opts);
+                    let tv = s.twin.get_sheet_collection_no_check().get(i).map(|w| sheet_p(w, self.opts)).unwrap_or(Value::Null);
+                    if let Some((path, l, r)) = first_diff(&lv, &tv) {
+                        let sym = diff_symptom(&path, &l, &r);
+                        out.push(self.viol(s, "materialised-equals-eager", &sym, &[], format!("sheet {} ({:?}) of the lazy book differs from the eager twin at {}: lazy {} / eager {}", i, ln[i], path, l, r)));
+                    }
+                }
+                keyparts.push(json!({"mat": true, "twin": format!("{:032x}", th), "lazy": format!("{:032x}", lh)}));
+            } else {
+                if full {
+                    // read-only access to an unloaded sheet: the cell stream must show the eager sheet's cells
+                    // (values, formulas, styles; hyperlinks are not part of the stream)
+                    self.check_cell_stream(s, i, &ln[i], out);
+                }
+                if s.model.get(i).map(|m| m.expect_mat).unwrap_or(false) {
+                    out.push(self.viol(s, "materialised-on-access", "still-unloaded", &[], format!("sheet {} ({:?}) is still unloaded after a materialising accessor", i, ln[i])));
+                }
+                keyparts.push(json!({"mat": false, "twin": format!("{:032x}", th)}));
+            }
         }
         let model: Vec<Value> = s.model.iter().map(|m| json!([m.orig, m.expect_mat, m.renamed_while_unloaded, m.edited])).collect();
         let k = json!({"names": ln, "sheets": keyparts, "model": model, "removed": s.removed, "wbins": s.wb_insert, "saves": s.saves, "save_sig": s.save_sig,
@@ -620,14 +727,46 @@ impl<'a> C11Machine<'a> {
         s.key = e2::key_of(&k.to_string());
     }
 
-    fn update_model(&self, s: &mut St, op: &Op, mat_before: &[bool]) -> Vec<usize> {
+    fn check_cell_stream(&self, s: &St, i: usize, name: &str, out: &mut Vec<Violation>) {
+        let o = Opts { styles: self.opts.styles, annotations: false, dims: false };
+        let cells_json = |it: &mut dyn Iterator<Item = &Cell>| -> Value {
+            let mut m = serde_json::Map::new();
+            for c in it {
+                if is_blank_cell(c) && !o.styles {
+                    continue;
+                }
+                let co = c.get_coordinate();
+                m.insert(ckey(*co.get_col_num(), *co.get_row_num()), cell_p(c, o));
+            }
+            Value::Object(m)
+        };
+        self.count("cell_streams_checked");
+        match guarded(|| s.lazy.get_lazy_read_sheet_cells(&i).map(|cells| cells_json(&mut cells.iter_collection()))) {
+            Err(p) => out.push(self.viol(s, "lazy-cell-stream-equals-eager", &format!("panic:{}", panic_class(&p)), &[], format!("get_lazy_read_sheet_cells({}) panicked: {}", i, p))),
+            Ok(Err(e)) => out.push(self.viol(s, "lazy-cell-stream-equals-eager", "refused", &[], format!("get_lazy_read_sheet_cells({}) -> Err({})", i, e))),
+            Ok(Ok(lv)) => {
+                let tv = match s.twin.get_sheet_collection_no_check().get(i) {
+                    Some(w) => cells_json(&mut w.get_cell_collection().into_iter()),
+                    None => return,
+                };
+                if let Some((path, l, r)) = first_diff(&lv, &tv) {
+                    out.push(self.viol(s, "lazy-cell-stream-equals-eager", &diff_symptom(&path, &l, &r), &[], format!("cell stream of unloaded sheet {} ({:?}) differs from the eager twin's cells at {}: stream {} / eager {}", i, name, path, l, r)));
+                }
+            }
+        }
+    }
+
+    /// Returns (sheets whose projection must be refreshed, refresh everything).
+    fn update_model(&self, s: &mut St, op: &Op, mat_before: &[bool]) -> (Vec<usize>, bool) {
         let mut touched = vec![];
+        let mut full = false;
         match op {
             Op::Read(i) => {
                 s.model[*i].expect_mat = true;
                 touched.push(*i);
             }
             Op::ReadAll => {
+                // the twin is untouched; newly materialised sheets of the lazy book have no cached projection yet
                 for m in s.model.iter_mut() {
                     m.expect_mat = true;
                 }
@@ -638,32 +777,47 @@ impl<'a> C11Machine<'a> {
                 touched.push(*i);
             }
             Op::Rename(i) => {
+                touched.push(*i);
                 if !mat_before[*i] {
                     s.model[*i].renamed_while_unloaded = true;
                 }
             }
             Op::WbInsert(_) => {
+                full = true;
                 s.wb_insert = true;
                 for m in s.model.iter_mut() {
                     m.edited = true;
                 }
             }
-            Op::New => s.model.push(MSheet { orig: None, expect_mat: true, renamed_while_unloaded: false, edited: true }),
+            Op::New => {
+                s.model.push(MSheet { orig: None, expect_mat: true, renamed_while_unloaded: false, edited: true });
+                s.lp.push(None);
+                s.tp.push(None);
+                touched.push(s.model.len() - 1);
+            }
             Op::Remove(i) => {
                 let m = s.model.remove(*i);
                 s.removed.push(m.orig.unwrap_or(usize::MAX - 1));
+                if *i < s.lp.len() && s.lp.len() == s.tp.len() {
+                    s.lp.remove(*i);
+                    s.tp.remove(*i);
+                }
             }
             Op::Save => {}
         }
-        touched
+        (touched, full)
     }
 
     /// One non-save step on (lazy, twin) with the oracle.
     fn step_plain(&self, s: &St, op: &Op, out: &mut Vec<Violation>, check: bool) -> Option<St> {
+        let t0 = std::time::Instant::now();
         let mut n = s.clone();
+        self.time("clone", t0);
         n.hist.push(op.clone());
+        let t0 = std::time::Instant::now();
         let rt = guarded(|| apply(&mut n.twin, op));
         let rl = guarded(|| apply(&mut n.lazy, op));
+        self.time("apply", t0);
         match (&rl, &rt) {
             (Err(pl), Ok(_)) => {
                 if check {
@@ -695,9 +849,11 @@ impl<'a> C11Machine<'a> {
                 }
             }
         }
-        let touched = self.update_model(&mut n, op, &s.mat);
+        let (touched, full) = self.update_model(&mut n, op, &s.mat);
         let mut vs = vec![];
-        self.observe(&mut n, &mut vs, &touched);
+        let t0 = std::time::Instant::now();
+        self.observe(&mut n, &mut vs, full || !check, &touched);
+        self.time(if check { "observe" } else { "observe_replay" }, t0);
         if check {
             for mut v in vs {
                 v.tags.push(format!("op:{}", op.name()));
@@ -741,7 +897,7 @@ impl<'a> C11Machine<'a> {
         n.saves += 1;
         n.save_sig = fnv(format!("{}:{:032x}", n.save_sig, cur.key).as_bytes());
         let mut vs = vec![];
-        self.observe(&mut n, &mut vs, &[]);
+        self.observe(&mut n, &mut vs, true, &[]);
         if check {
             for mut v in vs {
                 v.tags.push("op:save".into());
@@ -762,6 +918,11 @@ impl<'a> C11Machine<'a> {
         let mut seen = BTreeSet::new();
         for (class, part, msg) in lprob {
             let sym = format!("{}:{}", class, part_family(&part));
+            if self.init.orig_problems().contains(&sym) && !tprob.contains(&sym) {
+                // the original file has this problem and an unloaded sheet is copied byte for byte
+                self.count("validator_problem_inherited_from_original_file");
+                continue;
+            }
             if seen.insert(sym.clone()) {
                 let clause = if tprob.contains(&sym) { "package-valid-also-eager" } else { "package-valid" };
                 out.push(self.viol(cur, clause, &sym, &[], format!("{}: {}", part, msg)));
@@ -795,15 +956,19 @@ impl<'a> C11Machine<'a> {
         }
         let mut seen = BTreeSet::new();
         for i in 0..ln.len() {
-            let lp = sheet_p(&lre.get_sheet_collection_no_check()[i], Opts::FULL);
-            let tp = sheet_p(&tre.get_sheet_collection_no_check()[i], Opts::FULL);
+            let lh = self.proj(&lre.get_sheet_collection_no_check()[i]);
+            let th = self.proj(&tre.get_sheet_collection_no_check()[i]);
+            if lh == th {
+                continue;
+            }
+            let lp = sheet_p(&lre.get_sheet_collection_no_check()[i], self.opts);
+            let tp = sheet_p(&tre.get_sheet_collection_no_check()[i], self.opts);
             if let Some((path, l, r)) = first_diff(&lp, &tp) {
                 let was_mat = cur.mat.get(i).copied().unwrap_or(true);
                 if !was_mat {
                     // an unloaded sheet is copied byte for byte: it may keep MORE than the eager write/read round trip
                     // keeps.  "Same content as in the original" = the twin's in-memory sheet (eager load of the original).
-                    let orig = sheet_p(&cur.twin.get_sheet_collection_no_check()[i], Opts::FULL);
-                    if first_diff(&lp, &orig).is_none() {
+                    if cur.tp.get(i).copied().flatten() == Some(lh) {
                         self.count("unloaded_sheet_equals_original_better_than_eager_roundtrip");
                         continue;
                     }
@@ -847,7 +1012,10 @@ impl<'a> Machine for C11Machine<'a> {
             return self.step_plain(s, op, out, true);
         }
         // save: replay the history on fresh objects (see module comment), check the replay reproduces the node
-        let fresh = match self.rebuild(s) {
+        let t0 = std::time::Instant::now();
+        let fresh = self.rebuild(s);
+        self.time("rebuild", t0);
+        let fresh = match fresh {
             Ok(f) => f,
             Err(e) => {
                 out.push(self.viol(s, "harness-replay", "replay-diverged", &[], e));
@@ -858,7 +1026,10 @@ impl<'a> Machine for C11Machine<'a> {
             out.push(self.viol(s, "harness-replay", "replay-key-differs", &[], format!("replaying {:?} on fresh objects gives another state key", s.hist)));
             return None;
         }
-        self.do_save(&fresh, out, true).map(|x| x.0)
+        let t0 = std::time::Instant::now();
+        let r = self.do_save(&fresh, out, true).map(|x| x.0);
+        self.time("save+check", t0);
+        r
     }
 }
 
@@ -902,8 +1073,17 @@ impl Space for Hist {
         let (k, f) = self.cases[i as usize];
         let it = &inits_for(self.id)[k];
         let m = C11Machine::new(it, self.depth);
-        let init = match m.init_state() {
-            Ok(s) => s,
+        let init = match m.init_state_checked() {
+            Ok((s, vs)) => {
+                if f == 0 {
+                    sink.evaluations += 1;
+                    for mut v in vs {
+                        v.case = json!({"init": {"init": it.name}, "path": [], "ipath": [], "extra": null});
+                        sink.violations.push(v);
+                    }
+                }
+                s
+            }
             Err(e) => {
                 sink.violations.push(Violation::new("harness-replay", "init-unreadable", &[], self.describe(i), e));
                 return;
@@ -929,6 +1109,7 @@ fn space_cfg(tier: Tier, id: &str) -> Option<Hist> {
         (Tier::Thorough, "gen") => Some(Hist::new("gen", 4)),
         (Tier::Thorough, "corpus") => Some(Hist::new("corpus", 3)),
         (Tier::Thorough, "corpus-big") => Some(Hist::new("corpus-big", 2)),
+        (Tier::Thorough, "corpus-big-wide") => Some(Hist::new("corpus-big-wide", 1)),
         _ => None,
     }
 }
@@ -956,21 +1137,113 @@ fn replay(tier: Tier, case: &Value) -> Vec<Violation> {
     };
     let ipath: Vec<u32> = case["ipath"].as_array().map(|a| a.iter().filter_map(|x| x.as_u64().map(|y| y as u32)).collect()).unwrap_or_default();
     let m = C11Machine::new(it, h.depth);
-    let init = match m.init_state() {
-        Ok(s) => s,
+    let (init, init_vs) = match m.init_state_checked() {
+        Ok(x) => x,
         Err(e) => {
             eprintln!("replay: {}", e);
             return vec![];
         }
     };
+    if ipath.is_empty() {
+        return init_vs;
+    }
     let n = ipath.len();
     e2::replay_path(&m, init, &ipath).into_iter().filter(|v| v.case["path"].as_array().map(|p| p.len()) == Some(n)).collect()
 }
 
+/// Development aid (UV_C11_PROBE=<space>): sizes and timings of the initial files, one case per file.
+fn probe(id: &str) -> i32 {
+    if id == "list" {
+        for it in corpus_all().iter() {
+            println!("{} sheets={} bytes={} weight={} tables={:?} rels={:?}", it.name, it.nsheets, it.bytes.len(), it.weight, it.tables, it.parts.iter().map(|p| (p.part_no, p.has_rels)).collect::<Vec<_>>());
+        }
+        return 0;
+    }
+    let h = Hist::new(Box::leak(id.to_string().into_boxed_str()), std::env::var("UV_C11_DEPTH").ok().and_then(|d| d.parse().ok()).unwrap_or(2));
+    for it in inits_for(h.id) {
+        let t0 = std::time::Instant::now();
+        let m = C11Machine::new(it, h.depth);
+        let init = m.init_state().unwrap();
+        let t_init = t0.elapsed();
+        let t1 = std::time::Instant::now();
+        let c = init.clone();
+        let t_clone = t1.elapsed();
+        drop(c);
+        let mut sink = Sink::new();
+        let t2 = std::time::Instant::now();
+        let nops = ops_for(it.nsheets).len();
+        let st = e2::bfs(&m, init, json!({"init": it.name}), Some(nops - 1), h.depth, 2_000_000, &mut sink);
+        println!("{} sheets={} bytes={} parts={:?} init={:?} clone={:?} bfs(first=save,depth={})={:?} states={} trans={} viol={} counters={:?}", it.name, it.nsheets, it.bytes.len(), it.parts.iter().map(|p| (p.part_no, p.has_rels)).collect::<Vec<_>>(), t_init, t_clone, h.depth, t2.elapsed(), st.states, st.transitions, sink.violations.len(), m.counters.borrow());
+        println!("   timers(us)={:?}", m.timers.borrow());
+        let mut classes: BTreeMap<(String, String), (u64, String, Vec<String>)> = BTreeMap::new();
+        for v in &sink.violations {
+            let e = classes.entry((v.clause.clone(), v.symptom.clone())).or_insert((0, format!("{} :: {}", v.case["path"], v.detail.chars().take(300).collect::<String>()), v.tags.clone()));
+            e.0 += 1;
+        }
+        for ((c, s), (n, d, t)) in classes {
+            println!("   {} | {} x{} tags={:?}\n      {}", c, s, n, t, d);
+        }
+    }
+    0
+}
+
+/// Development aid (UV_C11_REPRO=1): the minimal direct reproductions of the recorded findings.
+fn repro() -> i32 {
+    fn parts_of(bytes: &[u8]) -> Vec<String> {
+        let mut v = vec![];
+        if let Ok(mut z) = zip::ZipArchive::new(std::io::Cursor::new(bytes)) {
+            for i in 0..z.len() {
+                if let Ok(f) = z.by_index(i) {
+                    if f.name().contains("worksheets") || f.name().contains("tables") || f.name().contains("comments") {
+                        v.push(f.name().to_string());
+                    }
+                }
+            }
+        }
+        v.sort();
+        v
+    }
+    // K1: corpus file, lazy, remove_sheet(0), save, reload
+    let data = std::fs::read(format!("{}/tests/test_files/aaa.xlsx", repo_root())).unwrap();
+    let mut b = load_bytes(&data, false).unwrap();
+    b.remove_sheet(0).unwrap();
+    let out = save_bytes(&b, false).unwrap();
+    println!("K1 aaa.xlsx lazy, remove_sheet(0), save: parts {:?}", parts_of(&out));
+    println!("   reload: {:?}", load_bytes(&out, true).map(|b| sheet_names(&b)));
+    println!("   validator: {:?}", with_py(|py| py.validate(&out)).iter().take(4).collect::<Vec<_>>());
+    let mut e = load_bytes(&data, true).unwrap();
+    e.remove_sheet(0).unwrap();
+    let out = save_bytes(&e, false).unwrap();
+    println!("   same on the eager book: reload {:?}, validator {:?}", load_bytes(&out, true).map(|b| sheet_names(&b)), with_py(|py| py.validate(&out)).len());
+    // K1 on a generated file: comments on the last of three sheets
+    let g = save_bytes(&build_gen(3), false).unwrap();
+    let mut b = load_bytes(&g, false).unwrap();
+    b.remove_sheet(0).unwrap();
+    let out = save_bytes(&b, false).unwrap();
+    println!("K1 comments-last3 lazy, remove_sheet(0), save: parts {:?}", parts_of(&out));
+    let r = load_bytes(&out, true).unwrap();
+    println!("   reloaded comments per sheet: {:?} (original: [0, 0, 1])", r.get_sheet_collection_no_check().iter().map(|w| w.get_comments().len()).collect::<Vec<_>>());
+    // K2: tables on sheets 1 and 2; materialise only sheet 2; save
+    let g = save_bytes(&build_gen(5), false).unwrap();
+    let mut b = load_bytes(&g, false).unwrap();
+    b.read_sheet(1);
+    let out = save_bytes(&b, false).unwrap();
+    let r = load_bytes(&out, true).unwrap();
+    println!("K2 tables3 lazy, read_sheet(1), save: parts {:?}", parts_of(&out));
+    println!("   reloaded tables per sheet: {:?} (original: [[Table1],[Table2],[]])", r.get_sheet_collection_no_check().iter().map(|w| w.get_tables().iter().map(|t| t.get_name().to_string()).collect::<Vec<_>>()).collect::<Vec<_>>());
+    0
+}
+
 fn run(ctx: &Ctx) -> i32 {
     quiet_panics();
+    if let Ok(id) = std::env::var("UV_C11_PROBE") {
+        return probe(&id);
+    }
+    if std::env::var("UV_C11_REPRO").is_ok() {
+        return repro();
+    }
     let thorough = ctx.tier == Tier::Thorough;
-    let ids: Vec<&'static str> = if thorough { vec!["gen", "corpus", "corpus-big"] } else { vec!["gen", "corpus-small"] };
+    let ids: Vec<&'static str> = if thorough { vec!["gen", "corpus", "corpus-big", "corpus-big-wide"] } else { vec!["gen", "corpus-small"] };
     let spaces: Vec<(&'static str, Box<dyn Space>)> = ids.iter().map(|id| (*id, space(ctx.tier, id).unwrap())).collect();
     let files: BTreeMap<&str, Vec<Value>> = ids.iter().map(|id| (*id, inits_for(id).iter().map(|i| json!({"file": i.name, "sheets": i.nsheets, "bytes": i.bytes.len(), "sheet_parts": i.parts.iter().map(|p| json!([p.part, p.has_rels])).collect::<Vec<_>>() })).collect())).collect();
     let bounds: Value = ids.iter().map(|id| (id.to_string(), json!(format!("all histories of length <= {} from every initial file of this space", space_cfg(ctx.tier, id).unwrap().depth)))).collect::<serde_json::Map<String, Value>>().into();
@@ -995,6 +1268,8 @@ fn run(ctx: &Ctx) -> i32 {
                 "validator problems and save/reload failures that the eager twin's package shows as well are reported under separate clauses (*-also-eager): they are not caused by lazy loading".into(),
                 "histories in which an operation panics or is refused on both books are not extended (counted)".into(),
                 "standard writer only (write_writer); the light writer differs in compression only".into(),
+                format!("corpus files whose eager load has more than {} cells+row entries+column entries (spaces corpus-big, corpus-big-wide) are compared without cell/row/column styles (dump Opts styles=false) and explored to a smaller depth; all other files use the FULL projection", HEAVY),
+                "only hashes of sheet projections are kept in a node; the projections are rebuilt when two hashes differ".into(),
             ],
             min_distinct: 200,
         },
